@@ -119,7 +119,7 @@ pub trait WithPrivateRange {«
  CuphOwnerPubKey = 257,
 
         }
-        impl EnumI64 for HeaderParameter {/*@AUTO:iana_spec:HeaderParameter*/
+        impl EnumI64 for HeaderParameter {
             fn from_i64(i: i64) -> Option<Self> {
                 match i {
                     x if x == Self::Reserved as i64 => Some(Self::Reserved),
@@ -212,7 +212,7 @@ impl WithPrivateRange for HeaderParameter {«
  EphemeralKey = -1,
 
         }
-        impl EnumI64 for HeaderAlgorithmParameter {/*@AUTO:iana_spec:HeaderAlgorithmParameter*/
+        impl EnumI64 for HeaderAlgorithmParameter {
             fn from_i64(i: i64) -> Option<Self> {
                 match i {
                     x if x == Self::PartyVOther as i64 => Some(Self::PartyVOther),
@@ -379,7 +379,7 @@ x if x == Self::EphemeralKey as i64 => Some(Self::EphemeralKey),
  IV_GENERATION = 34,
 
         }
-        impl EnumI64 for Algorithm {/*@AUTO:iana_spec:Algorithm*/
+        impl EnumI64 for Algorithm {
             fn from_i64(i: i64) -> Option<Self> {
                 match i {
                     x if x == Self::RS1 as i64 => Some(Self::RS1),
@@ -503,7 +503,7 @@ impl WithPrivateRange for Algorithm {«
  BaseIv = 5,
 
         }
-        impl EnumI64 for KeyParameter {/*@AUTO:iana_spec:KeyParameter*/
+        impl EnumI64 for KeyParameter {
             fn from_i64(i: i64) -> Option<Self> {
                 match i {
                     x if x == Self::Reserved as i64 => Some(Self::Reserved),
@@ -548,7 +548,7 @@ x if x == Self::BaseIv as i64 => Some(Self::BaseIv),
  D = -4,
 
         }
-        impl EnumI64 for OkpKeyParameter {/*@AUTO:iana_spec:OkpKeyParameter*/
+        impl EnumI64 for OkpKeyParameter {
             fn from_i64(i: i64) -> Option<Self> {
                 match i {
                     x if x == Self::Crv as i64 => Some(Self::Crv),
@@ -594,7 +594,7 @@ x if x == Self::D as i64 => Some(Self::D),
  D = -4,
 
         }
-        impl EnumI64 for Ec2KeyParameter {/*@AUTO:iana_spec:Ec2KeyParameter*/
+        impl EnumI64 for Ec2KeyParameter {
             fn from_i64(i: i64) -> Option<Self> {
                 match i {
                     x if x == Self::Crv as i64 => Some(Self::Crv),
@@ -673,7 +673,7 @@ x if x == Self::D as i64 => Some(Self::D),
  TI = -12,
 
         }
-        impl EnumI64 for RsaKeyParameter {/*@AUTO:iana_spec:RsaKeyParameter*/
+        impl EnumI64 for RsaKeyParameter {
             fn from_i64(i: i64) -> Option<Self> {
                 match i {
                     x if x == Self::N as i64 => Some(Self::N),
@@ -716,7 +716,7 @@ x if x == Self::TI as i64 => Some(Self::TI),
  K = -1,
 
         }
-        impl EnumI64 for SymmetricKeyParameter {/*@AUTO:iana_spec:SymmetricKeyParameter*/
+        impl EnumI64 for SymmetricKeyParameter {
             fn from_i64(i: i64) -> Option<Self> {
                 match i {
                     x if x == Self::K as i64 => Some(Self::K),
@@ -748,7 +748,7 @@ x if x == Self::TI as i64 => Some(Self::TI),
  Pub = -1,
 
         }
-        impl EnumI64 for HssLmsKeyParameter {/*@AUTO:iana_spec:HssLmsKeyParameter*/
+        impl EnumI64 for HssLmsKeyParameter {
             fn from_i64(i: i64) -> Option<Self> {
                 match i {
                     x if x == Self::Pub as i64 => Some(Self::Pub),
@@ -800,7 +800,7 @@ x if x == Self::TI as i64 => Some(Self::TI),
  Matrix2 = -6,
 
         }
-        impl EnumI64 for WalnutDsaKeyParameter {/*@AUTO:iana_spec:WalnutDsaKeyParameter*/
+        impl EnumI64 for WalnutDsaKeyParameter {
             fn from_i64(i: i64) -> Option<Self> {
                 match i {
                     x if x == Self::N as i64 => Some(Self::N),
@@ -847,7 +847,7 @@ x if x == Self::Matrix2 as i64 => Some(Self::Matrix2),
  WalnutDSA = 6,
 
         }
-        impl EnumI64 for KeyType {/*@AUTO:iana_spec:KeyType*/
+        impl EnumI64 for KeyType {
             fn from_i64(i: i64) -> Option<Self> {
                 match i {
                     x if x == Self::Reserved as i64 => Some(Self::Reserved),
@@ -899,7 +899,7 @@ x if x == Self::WalnutDSA as i64 => Some(Self::WalnutDSA),
  Secp256k1 = 8,
 
         }
-        impl EnumI64 for EllipticCurve {/*@AUTO:iana_spec:EllipticCurve*/
+        impl EnumI64 for EllipticCurve {
             fn from_i64(i: i64) -> Option<Self> {
                 match i {
                     x if x == Self::Reserved as i64 => Some(Self::Reserved),
@@ -964,7 +964,7 @@ impl WithPrivateRange for EllipticCurve {«
  MacVerify = 10,
 
         }
-        impl EnumI64 for KeyOperation {/*@AUTO:iana_spec:KeyOperation*/
+        impl EnumI64 for KeyOperation {
             fn from_i64(i: i64) -> Option<Self> {
                 match i {
                     x if x == Self::Sign as i64 => Some(Self::Sign),
@@ -1015,7 +1015,7 @@ x if x == Self::MacVerify as i64 => Some(Self::MacVerify),
  CoseSign = 98,
 
         }
-        impl EnumI64 for CborTag {/*@AUTO:iana_spec:CborTag*/
+        impl EnumI64 for CborTag {
             fn from_i64(i: i64) -> Option<Self> {
                 match i {
                     x if x == Self::CoseEncrypt0 as i64 => Some(Self::CoseEncrypt0),
@@ -1145,7 +1145,7 @@ x if x == Self::CoseSign as i64 => Some(Self::CoseSign),
  VndOmaLwm2mCbor = 11544,
 
         }
-        impl EnumI64 for CoapContentFormat {/*@AUTO:iana_spec:CoapContentFormat*/
+        impl EnumI64 for CoapContentFormat {
             fn from_i64(i: i64) -> Option<Self> {
                 match i {
                     x if x == Self::TextPlainUtf8 as i64 => Some(Self::TextPlainUtf8),
@@ -1253,7 +1253,7 @@ x if x == Self::VndOmaLwm2mCbor as i64 => Some(Self::VndOmaLwm2mCbor),
  Exi = 40,
 
         }
-        impl EnumI64 for CwtClaimName {/*@AUTO:iana_spec:CwtClaimName*/
+        impl EnumI64 for CwtClaimName {
             fn from_i64(i: i64) -> Option<Self> {
                 match i {
                     x if x == Self::Hcert as i64 => Some(Self::Hcert),
